@@ -350,6 +350,7 @@ type checker struct {
 	mu        sync.Mutex
 	evals     int
 	reruns    int
+	retries   int
 	classes   *core.Counter
 	outcomes  *core.Counter
 	kindsSeen *core.Counter
@@ -363,9 +364,12 @@ type checker struct {
 
 func (ck *checker) exec(sc *scenario) *outcome {
 	var o *outcome
-	for attempt := 0; attempt < 3; attempt++ {
+	for attempt := 0; attempt < 5; attempt++ {
 		o = runOne(ck.workBase, sc, ck.guard)
 		if o.res != nil && o.res.Outcome == "harness-invalid" {
+			ck.mu.Lock()
+			ck.retries++
+			ck.mu.Unlock()
 			continue
 		}
 		break
@@ -374,10 +378,13 @@ func (ck *checker) exec(sc *scenario) *outcome {
 }
 
 // confirm re-runs a violation candidate five times; it is reported only if
-// every re-run shows the same violation class.
+// every re-run shows the same violation class.  (A re-run in which the harness
+// could not set the scenario up - harness-invalid after 5 attempts, or the
+// worker guard - counts as not reproduced.)
 func (ck *checker) confirm(sc *scenario, c *candidate) bool {
 	var wg sync.WaitGroup
 	ok := make([]bool, 5)
+	what := make([]string, 5)
 	for i := 0; i < 5; i++ {
 		wg.Add(1)
 		go func(i int) {
@@ -385,6 +392,14 @@ func (ck *checker) confirm(sc *scenario, c *candidate) bool {
 			o := ck.exec(sc)
 			c2 := classify(o)
 			ok[i] = c2 != nil && sameSig(c2.sig, c.sig)
+			switch {
+			case c2 != nil:
+				what[i] = sigStr(c2.sig)
+			case o.res != nil:
+				what[i] = o.res.Outcome
+			default:
+				what[i] = "guard"
+			}
 		}(i)
 	}
 	wg.Wait()
@@ -399,7 +414,7 @@ func (ck *checker) confirm(sc *scenario, c *candidate) bool {
 	}
 	if n < 5 {
 		ck.mu.Lock()
-		ck.notRepro = append(ck.notRepro, fmt.Sprintf("%s: %s reproduced %d/5", sc, sigStr(c.sig), n))
+		ck.notRepro = append(ck.notRepro, fmt.Sprintf("%s: %s reproduced %d/5 (re-runs: %v)", sc, sigStr(c.sig), n, what))
 		ck.mu.Unlock()
 	}
 	return n == 5
@@ -596,6 +611,7 @@ func main() {
 	run.Finish(core.Coverage{
 		"evaluations":         ck.evals + 2,
 		"confirmation_reruns": ck.reruns,
+		"harness_retries":     ck.retries,
 		"scenarios_planned":   total,
 		"scenarios_completed": completed,
 		"distinct_nontrivial": ck.classes.Len(),
